@@ -101,7 +101,8 @@ def run(F, rep):
         if v.get('k') == 'Var' and v.get('c') and am.enclosing_lambda(v) is None:
             t = render(v['c'][0])
             if 'any_of' in t:
-                en = {x['n'] for x in walk(v) if x.get('k') == 'Ref' and x.get('dk') == 'enumc'}
+                from engines import walk_pred as _wp5
+                en = {x['n'] for x in _wp5(F, v) if x.get('k') == 'Ref' and x.get('dk') == 'enumc'}
                 if en == {'NLA'}:
                     preds[v['n']] = 'nla'
                 elif en == {'UNKNOWN', 'SHOULD_BE_STATE'}:
